@@ -16,7 +16,8 @@
    removing a backup copy (exercises the consistency scan of the constructor).
 
    A data tree is a sequence of file descriptions in directory-walk order:
-     dir  0 = data root, 1 = "code" (an excluded directory), 2 = "sub-01", 3 = "sub-02/eeg"
+     dir  0 = data root, 1 = "code" (an excluded directory), 2 = "sub-01", 3 = "sub-02/eeg",
+          4 = "sub-01/.orig" (a dot-directory: walked and backed up like any other; only in recorded random runs)
      tk   task name carried by the file name ("" = none)
      us   TRUE: the name spells it task_<tk> (what BackupManager.get_task matches),
           FALSE: the BIDS entity task-<tk> (what io_util.get_task_dict matches)
@@ -43,8 +44,8 @@ Name == "b1"
 BK == <<"derivatives", "remodel", "backups">>
 NameDir == BK \o <<Name>>
 RootDir == NameDir \o <<"backup_root">>
-DirPath == [d \in 0..3 |-> CASE d = 0 -> <<>> [] d = 1 -> <<"code">> [] d = 2 -> <<"sub-01">>
-                             [] d = 3 -> <<"sub-02", "eeg">>]
+DirPath == [d \in 0..4 |-> CASE d = 0 -> <<>> [] d = 1 -> <<"code">> [] d = 2 -> <<"sub-01">>
+                             [] d = 3 -> <<"sub-02", "eeg">> [] d = 4 -> <<"sub-01", ".orig">>]
 Prefixes(p) == {SubSeq(p, 1, j) : j \in 1..Len(p)}
 Range(s) == {s[j] : j \in 1..Len(s)}
 None == "none"
